@@ -28,10 +28,10 @@ func (c03) Assumptions() []string {
 
 func (c03) Batches(tier string, seed uint64) []core.Batch {
 	var b []core.Batch
-	b = append(b, spread("grammar", 8, tierN(tier, 2500, 25000))...)
-	b = append(b, spread("invalid", 4, tierN(tier, 300, 3000))...)
+	b = append(b, spread("grammar", 8, tierN(tier, 8000, 40000))...)
+	b = append(b, spread("invalid", 4, tierN(tier, 1500, 6000))...)
 	b = append(b, spread("exh", 8, 0)...)
-	b = append(b, spread("rtrand", 8, tierN(tier, 3000, 30000))...)
+	b = append(b, spread("rtrand", 8, tierN(tier, 12000, 60000))...)
 	return b
 }
 
